@@ -151,3 +151,52 @@ package api
 //@   ensures[method] !isget(ctx) ==> respstatus(ctx) == 405
 //@   ensures[ok] isget(ctx) ==> respstatus(ctx) == 200
 //@   ensures[once] respnbody(ctx) == 1
+
+// ---- provisioning URL ---------------------------------------------------------
+
+//@ func api.otpURLGeneration$1(ctx)
+//@   requires ctx != nil
+//@   domain respnbody(ctx) == 0
+//@   modifies ctx
+//@   let b = reqbody(ctx)
+//@   let ty = jstr(b, "type")
+//@   let ok = ispost(ctx) && jok(b, otpURLGenerateReq) && trim(ty) != "" && trim(jstr(b, "secret")) != "" && trim(jstr(b, "issuer")) != "" && trim(jstr(b, "account_name")) != ""
+//@   ensures[method] !ispost(ctx) ==> respstatus(ctx) == 405
+//@   ensures[bad] ispost(ctx) && !ok ==> respstatus(ctx) == 400
+//@   ensures[type] ok && ty != "totp" && ty != "hotp" ==> respstatus(ctx) == 400
+//@   ensures[ok] ok && (ty == "totp" || ty == "hotp") ==> respstatus(ctx) == 200
+//@   ensures[once] respnbody(ctx) == 1
+
+// ---- OCRA ------------------------------------------------------------------------
+
+//@ func otp.MustRawSuite(raw) (r)
+//@   ensures maphas(knownSuites, raw) ==> samecfg(r.SuiteConfig, mapget(knownSuites, raw)) && r.SuiteConfig.Raw == raw
+
+//@ macro ocrabad(b) = trim(jstr(b, "secret")) == "" || (trim(jstr(b, "raw_suite")) == "" && !jhas(b, "suite")) ||
+//@ |   (trim(jstr(b, "raw_suite")) != "" && !maphas(knownSuites, jstr(b, "raw_suite"))) || !jhas(b, "input")
+//@ macro hexok(s) = s == "" || ishex(s)
+//@ macro ocrahexok(b) = hexok(jstr(b, "input.counter_hex")) && hexok(jstr(b, "input.challenge_hex")) && hexok(jstr(b, "input.password_hex")) &&
+//@ |   hexok(jstr(b, "input.session_info_hex")) && hexok(jstr(b, "input.timestamp_hex"))
+
+//@ func api.ocraGeneration$1(ctx)
+//@   requires ctx != nil
+//@   domain respnbody(ctx) == 0
+//@   modifies ctx
+//@   let b = reqbody(ctx)
+//@   ensures[method] !ispost(ctx) ==> respstatus(ctx) == 405
+//@   ensures[badjson] ispost(ctx) && !jok(b, ocraGenerateReq) ==> respstatus(ctx) == 400
+//@   ensures[missing] ispost(ctx) && jok(b, ocraGenerateReq) && ocrabad(b) ==> respstatus(ctx) == 400
+//@   ensures[badhex] ispost(ctx) && jok(b, ocraGenerateReq) && !ocrabad(b) && jstr(b, "raw_suite") != "" && trim(jstr(b, "raw_suite")) != "" && !ocrahexok(b) ==> respstatus(ctx) == 400
+//@   ensures[status] respstatus(ctx) == 200 || respstatus(ctx) == 400 || respstatus(ctx) == 405 || respstatus(ctx) == 500
+//@   ensures[once] respnbody(ctx) == 1
+
+//@ func api.ocraValidation$1(ctx)
+//@   requires ctx != nil
+//@   domain respnbody(ctx) == 0
+//@   modifies ctx
+//@   let b = reqbody(ctx)
+//@   ensures[method] !ispost(ctx) ==> respstatus(ctx) == 405
+//@   ensures[badjson] ispost(ctx) && !jok(b, ocraValidateReq) ==> respstatus(ctx) == 400
+//@   ensures[missing] ispost(ctx) && jok(b, ocraValidateReq) && (ocrabad(b) || trim(jstr(b, "code")) == "") ==> respstatus(ctx) == 400
+//@   ensures[status] respstatus(ctx) == 200 || respstatus(ctx) == 400 || respstatus(ctx) == 405 || respstatus(ctx) == 500
+//@   ensures[once] respnbody(ctx) == 1
